@@ -157,7 +157,8 @@ def select(m, idx):
 
 def combine_keys(models, vals_order):
     """keys / caps / taint of concatenate and intersperse. vals_order: list of (dataset idx, example idx)."""
-    if all(mm.keys is not None for mm in models):
+    keyless_empty = [mm for mm in models if mm.keys is None and mm.n == 0]
+    if all(mm.keys is not None or mm.n == 0 for mm in models):
         keys = [models[d].keys[j] for d, j in vals_order]
     else:
         keys = None
@@ -166,6 +167,14 @@ def combine_keys(models, vals_order):
     cap_keys = cmin(*[mm.cap_keys for mm in models])
     cap_items = cmin(*[mm.cap_items for mm in models])
     cap_str = cmin(*[cmin(mm.cap_keys, mm.cap_str) for mm in models])
+    if keyless_empty and keys is not None:
+        # an EMPTY part without keys contributes no example: whether key operations refuse depends on whether the
+        # part is ever reached (e.g. an intersperse above never asks it) - the answer, if given, must be right
+        others = [mm for mm in models if not (mm.keys is None and mm.n == 0)]
+        if others:
+            cap_keys = cmin('opt', *[mm.cap_keys for mm in others])
+            cap_items = cmin('opt', *[mm.cap_items for mm in others])
+            cap_str = cmin('opt', *[cmin(mm.cap_keys, mm.cap_str) for mm in others])
     if dup:
         taint = True
         cap_keys = cmin(cap_keys, 'opt')
@@ -400,7 +409,7 @@ def ev_unary(op, node, m):
                          taint=m.taint, int_taint=m.int_taint)
         if m.has_raise or m.unordered:
             raise Invalid('eager cache needs an ordered, non-raising dataset')
-        if m.cap_items == 'opt':
+        if m.cap_items == 'opt' or (m.taint and m.cap_items != 'req'):
             raise Invalid('eager cache over optional items (not generated)')
         if m.cap_items == 'req' and m.keys is not None:
             if len(set(m.keys)) == len(m.keys):
